@@ -317,6 +317,8 @@ pub fn strat_posix_string() -> BoxedStrategy<String> {
         3 => (-24i32..=24).prop_map(|h| h * 3600),
         2 => (-24 * 60 + 1..24 * 60).prop_map(|m: i32| m * 60),
         1 => -86399i32..=86399,
+        // whole hours plus a few seconds (h:00:ss)
+        1 => ((-23i32..=23), 1i32..60).prop_map(|(h, s)| h * 3600 + if h < 0 { -s } else { s }),
     ];
     let save = prop_oneof![4 => Just(3600i32), 1 => Just(1800), 1 => Just(-3600), 1 => Just(7200), 1 => Just(2700), 1 => Just(1200), 1 => -7200i32..=7200];
     let day = prop_oneof![
